@@ -1,4 +1,5 @@
 CONSTANTS MaxX = 3
 WithReqClose = FALSE
+CoreOnly = TRUE
 SPECIFICATION MCSpec
-INVARIANTS TypeOK NoOverread CleanReuse NoReuseAfterClose OneReplyPerRequest FinalIndependent ClosedNotUsable
+INVARIANTS TypeOK NoOverread CleanReuse NoReuseAfterClose OneReplyPerRequest FinalIndependent ClosedNotUsable DirtyIsGivenUp UntilCloseSawEof
